@@ -691,4 +691,40 @@ theorem defaultWeight_eq (specs : List (AxSpec ℝ)) (p : Expo ℝ) (hp : p.isIn
   | nil => simp [defaultWeight, cellVolume, prodL]
   | cons s l => simp [defaultWeight, hp, cellVolume]
 
+theorem sub_eq_add_sub (s : Space ℝ) (x y z : El 𝕜) (hx : Shaped s x) (hy : Shaped s y)
+    (hz : Shaped s z) : x.sub z = (x.sub y).add (y.sub z) := by
+  induction s generalizing x y z with
+  | tens n w p =>
+    cases x <;> cases y <;> cases z <;> simp_all [Shaped, El.sub, El.add]
+  | discr u axes w p =>
+    cases x <;> cases y <;> cases z <;> simp_all [Shaped, El.sub, El.add]
+  | prod m w p comp ih =>
+    cases x with
+    | vec => simp [Shaped] at hx
+    | tup xs =>
+    cases y with
+    | vec => simp [Shaped] at hy
+    | tup ys =>
+    cases z with
+    | vec => simp [Shaped] at hz
+    | tup zs =>
+      simp only [Shaped] at hx hy hz
+      simp only [El.sub, El.add]
+      congr 1; funext k
+      exact ih k (xs k) (ys k) (zs k) (hx k) (hy k) (hz k)
+
+theorem sub_self_eq_smul_zero (s : Space ℝ) (x : El 𝕜) (hx : Shaped s x) :
+    x.sub x = (x.sub x).smul 0 := by
+  induction s generalizing x with
+  | tens n w p => cases x <;> simp_all [Shaped, El.sub, El.smul]
+  | discr u axes w p => cases x <;> simp_all [Shaped, El.sub, El.smul]
+  | prod m w p comp ih =>
+    cases x with
+    | vec => simp [Shaped] at hx
+    | tup xs =>
+      simp only [Shaped] at hx
+      simp only [El.sub, El.smul]
+      congr 1; funext k
+      exact ih k (xs k) (hx k)
+
 end OdlModel.C02
